@@ -202,6 +202,9 @@ func checkCmd(args []string) int {
 			}
 			continue
 		}
+		if fi.Contract.ThoroughOnly && *tier != "thorough" {
+			continue
+		}
 		funcsUnder[un.Func] = true
 		if !un.NoSym && !doneSym[un.Func] {
 			doneSym[un.Func] = true
@@ -455,17 +458,24 @@ func checkCmd(args []string) int {
 	if len(unexplained) > 0 || len(u.Problems) > 0 {
 		os.MkdirAll(replayDir, 0o755)
 	}
-	shown := 0
-	for _, o := range unexplained {
-		violations++
-		if shown >= 12 {
-			continue
+	// up to 12 failed obligations are replayed and printed: spread evenly over the failed list (consecutive ground
+	// instances often share an unattainable intermediate value), every obligation is counted
+	violations += len(unexplained)
+	pick := unexplained
+	if len(unexplained) > 12 {
+		pick = nil
+		step := float64(len(unexplained)) / 12.0
+		for i := 0; i < 12; i++ {
+			pick = append(pick, unexplained[int(float64(i)*step)])
 		}
+	}
+	shown := 0
+	for _, o := range pick {
 		shown++
 		path, confirmed := writeReplay(u, st, d, id, o, replayDir, *repo)
 		if id == "C16" && (o.Kind == "frame" || o.Kind == "g1") && !confirmed {
 			// the refuted obligation is only a sufficient condition for C16: without an observed race it is reported as
-			// undecided, not as a violation (DESIGN.md 4.2 rule 5)
+			// undecided, not as a violation (DESIGN.md 4.2 rule 4)
 			fmt.Printf("UNDECIDED property=%s obligation=%s %s (sufficient condition failed; the race replay observed no race: %s)\n", id, o.Name, o.Where, path)
 			violations--
 			undecided++
